@@ -149,6 +149,12 @@ func explore(t *testing.T) {
 	enc := json.NewEncoder(w)
 	viol := 0
 	abandoned := 0
+	knownSigs := map[string]bool{}
+	for _, k := range strings.Split(os.Getenv("SIM_KNOWN_SIGS"), ",") {
+		if k != "" {
+			knownSigs[k] = true
+		}
+	}
 	for n := 0; n < count; n++ {
 		i := from + n*stride
 		if time.Now().After(deadline) {
@@ -169,7 +175,9 @@ func explore(t *testing.T) {
 		line := runLine{I: i, Seed: seed, V: v, WallUs: time.Since(t0).Microseconds()}
 		if v.Verdict != "ok" || v.Crash != nil {
 			line.Case = c
-			viol++
+			if !(v.Verdict == "violation" && knownSigs[v.Property+"|"+v.Sig]) && v.Verdict != "inconclusive" {
+				viol++
+			}
 		} else if samplesLeft > 0 && v.Nontrivial {
 			line.Case = c
 			samplesLeft--
